@@ -137,6 +137,24 @@ theorem C03_P2_source_was_active (cfg : NCfg) (sub : NSub) (sc : Script) (hR : N
       ∀ p ∈ execSources ((alookup ev cfg.events).getD []) seg, p ∈ s.conf.nodes :=
   C03_P2_active_at_start cfg sub sc hR hC hq hno qmax ev s s' hlen hcok hidle h
 
+/-- **P5 for machine-level declarations, end to end** (unqueued machine, no on_exception handlers): if the event
+was offered to some state the trigger returns whether the LAST offered state executed a transition — "True iff
+some transition executed" holds exactly when no state is offered and blocked after an execution —; if it was offered
+to nobody the outcome is what `_check_event_result` decides from the (unchanged) state value (`C03_P5_unhandled_flat`) -/
+theorem C03_P5 (cfg : NCfg) (sub : NSub) (sc : Script) (hR : NoRaise sc) (hC : NoCmds sc)
+    (hq : cfg.queued = false) (hno : cfg.states.noEvents = true) (hex : cfg.onException = [])
+    (qmax ev : Nat) (s : NSt) (hlen : s.conf.len = 1) (hcok : ConfOK cfg.states s.conf = true) (hidle : s.queue = []) :
+    (∀ b s', napiTrigger sub sc cfg qmax ev s = .ok b s' →
+      ∃ seg, s'.glog = s.glog ++ seg ∧
+        (match (sOffers ((alookup ev cfg.events).getD []) seg []).getLast? with
+          | some o => b = o.executed
+          | none => cerLoop cfg ev (buildStateList [] s.conf).listify = .ok b ∧ s'.conf = s.conf)) ∧
+    (∀ e s', napiTrigger sub sc cfg qmax ev s = .err e s' →
+      ∃ seg, s'.glog = s.glog ++ seg ∧
+        ((sOffers ((alookup ev cfg.events).getD []) seg []) = [] →
+          cerLoop cfg ev (buildStateList [] s.conf).listify = .err e ∧ s'.conf = s.conf)) :=
+  C03_P5_global_only cfg sub sc hR hC hq hno hex qmax ev s hlen hcok hidle
+
 /-! ### P5: an event nobody handles -/
 
 /-- what `_check_event_result` decides for a state value that is a plain list of names: the first active state
